@@ -41,6 +41,10 @@ struct Base {
     par: bool,
     weighted: bool,
     f32_: bool,
+    /// all observations zero (the optimizer's ResidualsZero early exit: no Jacobian is ever evaluated)
+    yzero: bool,
+    /// sample locations shifted away from 0 (so that e.g. exp(-x/0) is 0 everywhere instead of NaN at x = 0)
+    xshift: bool,
 }
 
 fn fam_id(f: &Family) -> Value {
@@ -93,7 +97,7 @@ fn fbits(v: f64) -> String {
     format!("{:016x}", v.to_bits())
 }
 fn case_json(b: &Base, subs: &[(Pos, f64)]) -> Value {
-    json!({"fam": fam_id(&b.fam), "n": b.n, "s": b.s, "prov": b.prov.name(), "par": b.par, "weighted": b.weighted, "scalar": if b.f32_ {"f32"} else {"f64"},
+    json!({"fam": fam_id(&b.fam), "n": b.n, "s": b.s, "prov": b.prov.name(), "par": b.par, "weighted": b.weighted, "scalar": if b.f32_ {"f32"} else {"f64"}, "yzero": b.yzero, "xshift": b.xshift,
            "subs": subs.iter().map(|(p, v)| json!({"pos": pos_json(p), "value": format!("{:e}", v), "bits": fbits(*v)})).collect::<Vec<_>>()})
 }
 fn case_parse(v: &Value) -> (Base, Vec<(Pos, f64)>) {
@@ -105,6 +109,8 @@ fn case_parse(v: &Value) -> (Base, Vec<(Pos, f64)>) {
         par: v["par"].as_bool().unwrap(),
         weighted: v["weighted"].as_bool().unwrap(),
         f32_: v["scalar"] == "f32",
+        yzero: v["yzero"].as_bool().unwrap_or(false),
+        xshift: v["xshift"].as_bool().unwrap_or(false),
     };
     let subs = v["subs"].as_array().unwrap().iter().map(|s| (pos_parse(&s["pos"]), f64::from_bits(u64::from_str_radix(s["bits"].as_str().unwrap(), 16).unwrap()))).collect();
     (b, subs)
@@ -136,13 +142,20 @@ fn run_case<T: Sc>(ctx: &Ctx, b: &Base, subs: &[(Pos, f64)]) {
     let cj = || case_json(b, subs);
     let (a_true, _c) = truth(&b.fam);
     let mut x = xgrid(&b.fam, b.n);
+    if b.xshift {
+        for v in x.iter_mut() {
+            *v += 0.5;
+        }
+    }
     let clean_spec = ModelSpec::new(b.fam.clone(), x.clone());
     // start a few percent off the truth so that the optimizer really iterates
     let mut a0: Vec<f64> = a_true.iter().enumerate().map(|(k, v)| v * (1.0 + 0.04 * (k as f64 + 1.0))).collect();
     let mut y = DMatrix::<f64>::zeros(b.n, b.s);
     for s in 0..b.s {
         let d = data(&clean_spec, 1.0 + s as f64, 1e-3, 1 + s as u64, 7);
-        y.set_column(s, &d);
+        if !b.yzero {
+            y.set_column(s, &d);
+        }
     }
     let mut w: Option<Vec<f64>> = if b.weighted { WKind::Ramp.make(b.n) } else { None };
     let mut set_alpha: Option<Vec<f64>> = None;
@@ -239,7 +252,14 @@ fn bases(thorough: bool) -> Vec<Base> {
                         if !thorough && (fi == 3 || (s == 2 && f32_) || (par && n != 3)) {
                             continue;
                         }
-                        v.push(Base { fam: fam.clone(), n, s, prov, par, weighted, f32_ });
+                        v.push(Base { fam: fam.clone(), n, s, prov, par, weighted, f32_, yzero: false, xshift: false });
+                        if s == 1 && !par {
+                            v.push(Base { fam: fam.clone(), n, s, prov, par, weighted, f32_, yzero: true, xshift: true });
+                            if thorough {
+                                v.push(Base { fam: fam.clone(), n, s, prov, par, weighted, f32_, yzero: true, xshift: false });
+                                v.push(Base { fam: fam.clone(), n, s, prov, par, weighted, f32_, yzero: false, xshift: true });
+                            }
+                        }
                     }
                 }
             }
